@@ -105,7 +105,7 @@ def main():
         }],
         "checks": checks,
         "not_applicable": [],
-        "notes": "See DESIGN.md §0 (as built), §12 (defects: 9 fixed by 'fix:' commits in /repo, 1 recorded in known_findings.txt), §15 (28 seeded changes and which checks catch them).",
+        "notes": "See DESIGN.md §0 (as built), §12 (defects: 9 fixed by 'fix:' commits in /repo, 1 recorded in known_findings.txt), §15 (seeded changes from fresh sub-agents, four-plus rounds, and which checks catch them), §16 (behaviour-preserving refactorings: no alarm). Thorough tier additionally replays each property module through leanchecker.",
     }
     with open(os.path.join(ROOT, "MANIFEST.json"), "w") as f:
         json.dump(m, f, indent=1, ensure_ascii=False)
